@@ -8,6 +8,7 @@ import WM.Lemmas.ParserEval
 import WM.Lemmas.ParserFields
 import WM.Lemmas.ParserClean
 import WM.Lemmas.ParserIdentity
+import WM.Lemmas.ParserTag
 /-!
 C16 — the query parser accepts any input and honours the documented language.
 
@@ -768,5 +769,144 @@ theorem query_compound_none (o : Node → LeafRes) (k : GK) (hk : k = .and ∨ k
     query o (.group k ns b) = .ok (some (.compound k (rs.filterMap id) b)) := by
   rcases hk with h1 | h1 | h1 <;> subst h1 <;> rw [query] <;>
     first | simp [h, bind, Except.bind, pure, Except.pure] | (intro h'; cases h')
+
+/-! ## Round 3: from the query string to the node list (`QueryParser.tag`) -/
+
+/-- `C16.total` (tagging), exceptions: `tag()` returns a node list for every string and every
+    list of taggers whose matches are non-empty; the brackets, white space and operator taggers of
+    the shipped plug-ins are modelled and satisfy this outright (`Tagger.Forward` is `True` for
+    them, `lit ≠ []` for an operator), for the other taggers (real regular expressions) it is the
+    hypothesis that their match is not the empty string.  Whatever the taggers do, the only
+    exception the loop can raise is its own "did not move cursor forward" `Exception`. -/
+theorem tag_total (tgs : List Tagger) (text : List QChar) :
+    ((∀ t ∈ tgs, t.Forward) → ∃ out, tag tgs text = .ok out) ∧
+    (∀ e, tag tgs text = .error e → e = .other) :=
+  ⟨fun hf => tagLoop_total tgs text hf 0 0 [], fun e h => tagLoop_err tgs text 0 0 [] e h⟩
+
+/-- `C16.total` (tagging), losslessness: the character ranges of the returned nodes tile the string
+    (consecutive, non-empty, from 0 to `len(text)`; so the nodes' source texts concatenate to the
+    input), and every node is either the `WordNode` of the text between two matches or the answer of
+    the first tagger (in priority order) that matches at the place where the node starts. -/
+theorem tag_lossless (tgs : List Tagger) (text : List QChar) (hb : ∀ t ∈ tgs, t.Bounded text)
+    (out : List Tagged) (h : tag tgs text = .ok out) :
+    Tiles 0 out text.length ∧ sourceOf text out = text ∧ ∀ x ∈ out, FromTag tgs text x := by
+  obtain ⟨h1, h2⟩ := tagLoop_spec tgs text hb 0 0 [] out 0 rfl (Nat.le_refl _) (Nat.zero_le _)
+    (fun x hx => by cases hx) h
+  refine ⟨h1, ?_, h2⟩
+  have := (Tiles_source text 0 text.length out h1 (Nat.le_refl _)).2
+  simpa using this
+
+/-- every node of the tagged list satisfies `P` as soon as words do and every tagger's answers do -/
+theorem tag_kinds (P : Node → Bool) (hword : ∀ t, P (.text .word t none 1) = true)
+    (tgs : List Tagger) (text : List QChar) (hb : ∀ t ∈ tgs, t.Bounded text)
+    (hP : ∀ t ∈ tgs, ∀ p h, t.matchAt text p = some h → P h.node = true)
+    (out : List Tagged) (h : tag tgs text = .ok out) : ∀ n ∈ out.map (·.node), P n = true := by
+  intro n hn
+  obtain ⟨x, hx, rfl⟩ := List.mem_map.1 hn
+  rcases (tag_lossless tgs text hb out h).2.2 x hx with he | ⟨hit, hfh, he⟩
+  · rw [he]; exact hword _
+  · obtain ⟨t, ht, hm⟩ := firstHit_mem hfh
+    rw [he]; exact hP t ht _ _ hm
+
+/-- what the tag loop needs to know about the taggers of the default plug-in set: brackets, white
+    space, left-associative operators of the six default (class, group) pairs; any other tagger
+    answers with one of the node kinds of `defaultTagged` -/
+def defaultTagger : Tagger → Prop
+  | .opn | .cls | .ws => True
+  | .op _ _ _ t g la => la = true ∧ defaultOps.any (fun o => o.t == t && o.g == g) = true
+  | .ext f => ∀ p h, f p = some h → defaultTagged h.node = true
+
+theorem defaultTagger_hits {t : Tagger} (ht : defaultTagger t) (text : List QChar) (p : Nat) (h : TagHit)
+    (hm : t.matchAt text p = some h) : defaultTagged h.node = true := by
+  cases t with
+  | opn => simp only [Tagger.matchAt] at hm; split at hm <;> first | (injection hm with hm; subst hm; rfl) | cases hm
+  | cls => simp only [Tagger.matchAt] at hm; split at hm <;> first | (injection hm with hm; subst hm; rfl) | cases hm
+  | ws => simp only [Tagger.matchAt] at hm; split at hm <;> first | (injection hm with hm; subst hm; rfl) | cases hm
+  | op lit a b t g la =>
+    simp only [Tagger.matchAt] at hm
+    split at hm
+    · injection hm with hm; subst hm
+      simp only [defaultTagger] at ht
+      simp only [defaultTagged, ht.1, Bool.true_and]
+      exact ht.2
+    · cases hm
+  | ext f => exact ht p h hm
+
+/-- `C16.total` from the query *string* for the default plug-in set: the hypothesis `hns` of
+    `total` ("the taggers emit a flat list of the default node kinds") is discharged by the model
+    of `tag()`; what remains assumed is, per tagger that is not modelled (a real regular
+    expression), that its match is non-empty, ends inside the string and creates a node of its
+    own kind. -/
+theorem total_text (c : Cfg) (hp : priorized c.filters = defaultPipeline) (hops : c.ops = defaultOps)
+    (hgrp : c.group.hasBoost = true) (tgs : List Tagger) (text : List QChar)
+    (hfw : ∀ t ∈ tgs, t.Forward) (hb : ∀ t ∈ tgs, t.Bounded text) (hk : ∀ t ∈ tgs, defaultTagger t)
+    (o : Node → LeafRes) (ho : leavesOk o) :
+    ∃ out, tag tgs text = .ok out ∧ Tiles 0 out text.length ∧
+      ∃ t, filterize c (out.map (·.node)) = .ok t ∧ clean t = true ∧ allowed (query o t) := by
+  obtain ⟨out, hout⟩ := (tag_total tgs text).1 hfw
+  have hns := tag_kinds defaultTagged (fun _ => rfl) tgs text hb
+    (fun t ht p h hm => defaultTagger_hits (hk t ht) text p h hm) out hout
+  exact ⟨out, hout, (tag_lossless tgs text hb out hout).1, total c hp hops hgrp _ hns o ho⟩
+
+/-- the same for `SimpleParser` / `DisMaxParser` (taggers: white space, and the not-modelled plus /
+    minus and phrase taggers) -/
+theorem total_text_simple (c : Cfg) (multi : Bool)
+    (hp : priorized c.filters = (if multi then [.multifield] else []) ++ [.rmws, .rmws, .plusminus])
+    (hgrp : c.group.hasBoost = true) (hmf : c.mfGroup.hasBoost = true)
+    (fs : List (Nat → Option TagHit)) (text : List QChar)
+    (hfw : ∀ f ∈ fs, (Tagger.ext f).Forward) (hb : ∀ f ∈ fs, (Tagger.ext f).Bounded text)
+    (hk : ∀ f ∈ fs, ∀ p h, f p = some h → simpleTagged h.node = true)
+    (pre post : List (Nat → Option TagHit)) (hfs : fs = pre ++ post)
+    (o : Node → LeafRes) (ho : leavesOk o) :
+    ∃ out, tag (pre.map .ext ++ .ws :: post.map .ext) text = .ok out ∧ Tiles 0 out text.length ∧
+      ∃ t, filterize c (out.map (·.node)) = .ok t ∧ clean t = true ∧ allowed (query o t) := by
+  subst hfs
+  have hmem : ∀ t ∈ pre.map Tagger.ext ++ Tagger.ws :: post.map Tagger.ext, t = .ws ∨ ∃ f ∈ pre ++ post, t = .ext f := by
+    intro t ht
+    simp only [List.mem_append, List.mem_cons, List.mem_map] at ht
+    rcases ht with ⟨f, hf, rfl⟩ | rfl | ⟨f, hf, rfl⟩
+    · exact Or.inr ⟨f, by simp [hf], rfl⟩
+    · exact Or.inl rfl
+    · exact Or.inr ⟨f, by simp [hf], rfl⟩
+  have hfw' : ∀ t ∈ pre.map Tagger.ext ++ Tagger.ws :: post.map Tagger.ext, t.Forward := by
+    intro t ht
+    rcases hmem t ht with rfl | ⟨f, hf, rfl⟩
+    · trivial
+    · exact hfw f hf
+  have hb' : ∀ t ∈ pre.map Tagger.ext ++ Tagger.ws :: post.map Tagger.ext, t.Bounded text := by
+    intro t ht
+    rcases hmem t ht with rfl | ⟨f, hf, rfl⟩
+    · trivial
+    · exact hb f hf
+  obtain ⟨out, hout⟩ := (tag_total _ text).1 hfw'
+  have hns := tag_kinds simpleTagged (fun _ => rfl) _ text hb'
+    (fun t ht p h hm => by
+      rcases hmem t ht with rfl | ⟨f, hf, rfl⟩
+      · simp only [Tagger.matchAt] at hm
+        split at hm <;> first | (injection hm with hm; subst hm; rfl) | cases hm
+      · exact hk f hf p h hm) out hout
+  exact ⟨out, hout, (tag_lossless _ text hb' out hout).1, total_simple c multi hp hgrp hmf _ hns o ho⟩
+
+/-- instance: `a AND (b)` through the modelled taggers alone (no tagger for words: the text between
+    matches becomes `WordNode`s): seven nodes that tile the nine characters -/
+example :
+    let ch (c : Nat) : QChar := ⟨c, c = 32⟩
+    let tgs : List Tagger := [.ws, .opn, .cls, .op [65, 78, 68] false false .inf .and true]
+    (∀ t ∈ tgs, t.Forward) ∧ (∀ t ∈ tgs, defaultTagger t) ∧
+    tag tgs ([97, 32, 65, 78, 68, 32, 40, 98, 41].map ch)
+      = .ok [⟨.text .word [97] none 1, 0, 1⟩, ⟨.ws, 1, 2⟩, ⟨.op .inf .and true [65, 78, 68], 2, 5⟩, ⟨.ws, 5, 6⟩,
+             ⟨.opn, 6, 7⟩, ⟨.text .word [98] none 1, 7, 8⟩, ⟨.cls, 8, 9⟩] := by
+  refine ⟨?_, ?_, ?_⟩
+  · intro t ht
+    simp only [List.mem_cons, List.not_mem_nil, or_false] at ht
+    rcases ht with rfl | rfl | rfl | rfl <;> simp [Tagger.Forward]
+  · intro t ht
+    simp only [List.mem_cons, List.not_mem_nil, or_false] at ht
+    rcases ht with rfl | rfl | rfl | rfl <;> simp [defaultTagger, defaultOps]
+  · simp [tag, tagLoop, firstHit, Tagger.matchAt, codeAt, spaceAt, spaceRun, litAt, opBefore, inter]
+
+/-- the exception of the loop is reachable: a tagger that matches the empty string -/
+example : tag [.ext fun p => some ⟨.ws, p, true⟩] [⟨97, false⟩] = .error .other := by
+  simp [tag, tagLoop, firstHit, Tagger.matchAt]
 
 end WM.C16
